@@ -84,6 +84,37 @@ fn replay_rank<const D: usize>(case: &Value, v: &mut Verdict) {
             v.mismatch("tensor.index_mut: out-of-range index accepted", ctx(json!({"idx": it["idx"], "offset_inside_storage": aliases})));
         }
     }
+    // the same for components far beyond the extent (what `j - 1` gives at j = 0 without overflow checks, and values
+    // whose product with the stride wraps around 2^64 back into the storage): out of range in that dimension
+    for d in 0..D {
+        let stride: u128 = dims[d + 1..].iter().map(|&x| x as u128).product();
+        let mut huge: Vec<usize> = vec![usize::MAX, usize::MAX - 1, 1 << 63, (1usize << 63) + dims[d], (1usize << 63) - 1 + dims[d], 1 << 62, 1 << 32, (1 << 32) + 1];
+        for off in 0..3u128 {
+            // smallest H with stride * H >= 2^64 + off: the product wraps to a small offset
+            let h = ((1u128 << 64) + off + stride - 1) / stride;
+            if h <= usize::MAX as u128 && h >= dims[d] as u128 {
+                huge.push(h as usize);
+            }
+        }
+        for base in [[0usize; D], { let mut b = dims; for x in b.iter_mut() { *x -= 1; } b }] {
+            for &hv in &huge {
+                let mut idx = base;
+                idx[d] = hv;
+                v.checks += 2;
+                let mut c2 = a.clone();
+                let r1 = catch(|| a[idx]);
+                let r2 = catch(move || {
+                    c2[idx] = 5;
+                });
+                if let Ok(val) = r1 {
+                    v.mismatch("tensor.index: out-of-range index accepted", ctx(json!({"idx": idx.iter().map(|x| x.to_string()).collect::<Vec<_>>(), "returned": val, "far_out_of_range": true})));
+                }
+                if r2.is_ok() {
+                    v.mismatch("tensor.index_mut: out-of-range index accepted", ctx(json!({"idx": idx.iter().map(|x| x.to_string()).collect::<Vec<_>>(), "far_out_of_range": true})));
+                }
+            }
+        }
+    }
     // constructors reject zero extents and a data length that does not match
     for z in arr(case, "zero") {
         let zd: [usize; D] = arr_d(&us(z));
